@@ -1,5 +1,6 @@
 """C03 -- List / Array / PoolList hold the reference sequence (List: step contracts + bounded whole-list checks)."""
 SRCS = ["harness/list.cpp", "contracts/list.c"]
+INSERT = "List<tag-Tr>::insert(this|ref_struct_tag(identifier=List<tag-Tr>::tag-Iterator|#constant=1_1)|ref_struct_tag(identifier=tag-Tr|#constant=1_1))"
 
 
 def U(name, entry, enforce=None, reach=(), **kw):
@@ -12,7 +13,8 @@ def U(name, entry, enforce=None, reach=(), **kw):
 
 def B(name, entry, reach, **kw):
     kw.setdefault("bound", "lists of at most 3 elements, values symbolic")
-    return U(name, entry, None, reach, kind="bounded", cbmc=["--unwind", "6", "--unwinding-assertions"], **kw)
+    kw.setdefault("cbmc", ["--unwind", "6", "--unwinding-assertions"])
+    return U(name, entry, None, reach, kind="bounded", **kw)
 
 
 UNITS = [
@@ -23,6 +25,7 @@ UNITS = [
     U("removeBack", "h_removeBack", "w_List_removeBack", ["removeBack.more", "removeBack.only"]),
     U("swap", "h_swap", "w_List_swap", ["swap.empty_with_full", "swap.full_with_full"]),
     B("copy+dtor.bounded", "h_b_copy", ["b_copy.return"]),
+    B("assign.bounded", "h_b_assign", ["b_assign.other"], defs=["NV_ALIAS=0", "NV_BK=1"], bound="lists of at most 1 element, values symbolic", timeout=1500),
     B("clear+find+eq.bounded", "h_b_clear_find_eq", ["b_clear_find_eq.return"]),
     B("append_list.bounded", "h_b_append_list", ["b_append_list.return"]),
 ]
@@ -32,7 +35,7 @@ ASSUMPTIONS = [
     "step contracts (insert, remove, swap) hold for ANY list: the neighbourhood (position, predecessor, free item, sentinel) is symbolic, "
     "the rest of the list is unconstrained; sequence semantics follows from the relinking postconditions by induction over operations (paper)",
     "operations that walk the whole list: copy, clear, find, ==, !=, append(list), destruction are BOUNDED stand-ins (<= 3 elements) and not counted as proved; "
-    "operator= and sort have harnesses (h_b_assign, h_b_sort) but cbmc runs out of memory / returns solver errors on them, they are NOT checked",
+    "operator= (<= 1 element) is a bounded stand-in too; List::sort is NOT checked (cbmc runs out of memory on the recursive quicksort over symbolic item pointers even for 2 elements); self-assignment (h_b_assign with NV_ALIAS=1) is NOT checked",
     "element construction / destruction counts (C04) are not checked: goto-cc does not run member destructors in explicit destructor calls",
 ]
 EXPLANATION = ("List::insert / remove / swap are verified against relinking contracts with exact frames over symbolic neighbourhoods; "
